@@ -1,0 +1,7 @@
+//go:build !verif
+
+package retriever
+
+// fsStep marks a file-system mutation point for the verification harness (build tag "verif",
+// verif_hooks.go). Without the tag it is empty and inlined away.
+func fsStep(string) {}
